@@ -49,7 +49,8 @@ Check(r, idx) ==
         pendingCalls == {c \in calls : ~\E x \in rets : x.g = c.g}
         \* values that may legitimately be returned or cached for key k
         loadedVals(k) == {x.v : x \in {y \in exits : y.k = k /\ y.err \in {"", "err"}}}
-        writtenVals(k) == {w.v : w \in {y \in wcalls : y.k = k}} \cup {50, 7777}
+        \* (a value a bulk loader volunteered for a key it was not asked for may be cached and then served like any cached value)
+        writtenVals(k) == {w.v : w \in {y \in wcalls : y.k = k}} \cup {50, 7777} \cup {x.v : x \in {y \in exits : y.k = k /\ y.err = "vol"}}
         invented == {x \in rets : (x.err = "" \/ (x.err = "err" /\ x.op = "Get")) /\ x.op \in {"Get", "BulkGet"}
                                    /\ x.v \notin loadedVals(x.k) \cup writtenVals(x.k)}
         \* a BulkGet may leave a requested key out (without an error) only if a loader run that had finished by then reported it not found
